@@ -142,6 +142,10 @@ func Load(repo string) (*Loaded, error) {
 	for _, b := range []types.BasicKind{types.Bool, types.String, types.Int, types.Int8, types.Int16, types.Int32, types.Int64, types.Uint, types.Uint8, types.Uint16, types.Uint32, types.Uint64, types.Float32, types.Float64} {
 		tmap[typeKey(types.Typ[b])] = types.Typ[b]
 	}
+	anyT := types.Universe.Lookup("any").Type()
+	for _, ct := range []types.Type{types.NewSlice(anyT), types.NewMap(types.Typ[types.String], anyT)} {
+		tmap[typeKey(ct)] = ct
+	}
 	for k := range tmap {
 		tnames = append(tnames, k)
 	}
